@@ -4,7 +4,8 @@
    arguments and arbitrary oracle/remote inputs) from the empty store over either disk kind [m], and
    then over the arguments of the call being judged in the reached state. *)
 From Coq Require Import List NArith ZArith Bool.
-From BLB Require Import Store.Bytes Store.Model Store.Proofs Store.WF Store.Conflict Store.Mono C09.Model C09.Proofs.
+From BLB Require Import Store.Bytes Store.Model Store.Proofs Store.WF Store.Conflict Store.Mono
+     Store.Steps Store.Monotone Store.Readd C09.Model C09.Proofs.
 Import ListNotations.
 
 (* [FULL] Read succeeds (NoError or EOF) iff the named version is the served copy's version and then returns exactly the stored bytes of the range, otherwise returns no bytes; Stat succeeds iff the version is current and then returns the stored size, otherwise 0; reads and stats never change the state; Write succeeds iff the version is current and then the served copy is the old content overwritten at the offset with the same version, otherwise the state is unchanged except that the named tract's mod stamp IS bumped, files and disk table untouched *)
@@ -130,3 +131,35 @@ Print Assumptions gc_respects_version.
 Theorem reachable_wf : forall m ops, wf (run (init m) ops).
 Proof. exact reachable_wf_lemma. Qed.
 Print Assumptions reachable_wf.
+
+(* [FULL] the property's second sentence as one statement over every operation sequence from the empty store and every next operation, covering Create and create-as-write, Write, SetVersion, multi-source PullTract, GCTracts lists, Check, Restart, AddDisk with any number of conflicts, RemoveDisk and SetAlloc. First, for every stored copy (physical disk, tract) the operation does exactly one of the things listed by copy_change, namely nothing, or a write at the copy's own version, or one SetVersion step from v-1 to v with the content kept, or a new copy where there was none (Create of an unknown tract), or a PullTract for which whatever was there had a version at most the requested one and afterwards there is nothing or the complete bytes of one source at exactly the requested version, or the copy stops existing through a GC instruction at or above its version or naming it gone, or through conflict resolution where the other copy is not older (a tie drops both). Second, a copy that exists before and after keeps a readable version that does not decrease, and a strict increase is either SetVersion from c to c+1 with the same content or PullTract installing complete source bytes at the new version. Third, every stored file has a readable version. Fourth and fifth, along any further sequence a copy that stays stored never decreases, and neither does the served view of a tract that stays served, even when PullTract or conflict resolution moves it to another disk *)
+Theorem version_monotone :
+  forall m ops,
+    let s := run (init m) ops in
+    (forall o pd t, copy_change s o pd t (copy s pd t) (copy (fst (step s o)) pd t)) /\
+    (forall o pd t f f',
+        copy s pd t = Some f -> copy (fst (step s o)) pd t = Some f' ->
+        ver_le f f' /\
+        (forall c c', f_ver f = Some c -> f_ver f' = Some c' -> (c < c')%Z ->
+           (exists cond, o = SetVersion t c' cond /\ c' = (c + 1)%Z /\ f_data f' = f_data f) \/
+           (exists srcs orc re data, o = PullTract t srcs c' orc /\ In (re, data) srcs /\ ok_reply re /\
+                                     f' = mkfile (Some c') (rle_write [] data 0%N)))) /\
+    versioned s /\
+    (forall ops2 pd t f f',
+        stored_throughout s ops2 pd t -> copy s pd t = Some f ->
+        copy (run s ops2) pd t = Some f' -> ver_le f f') /\
+    (forall ops2 t f f',
+        served_throughout s ops2 t -> cur s t = Some f ->
+        cur (run s ops2) t = Some f' -> ver_le f f').
+Proof. exact version_monotone_lemma. Qed.
+Print Assumptions version_monotone.
+
+(* [FULL] a restart followed by AddDisk of exactly the previously attached disks in any order, each AddDisk succeeding, is the run of Restart and those AddDisk operations, leaves every file of every disk as it was and serves every tract with the same version and content as before the restart, and serves nothing else *)
+Theorem restart_readd_restores_view :
+  forall m ops l s',
+    let s := run (init m) ops in
+    NoDup l -> (forall p, In p l <-> attached s p) ->
+    adds (restart s) l = Some s' ->
+    run s (Restart :: map AddDisk l) = s' /\ disks s' = disks s /\ forall t, cur s' t = cur s t.
+Proof. exact restart_readd_lemma. Qed.
+Print Assumptions restart_readd_restores_view.
